@@ -282,7 +282,7 @@ def gen_key(rng, shape, write, d10=False, for_sparse=False):
         return {"k": "linslice", "s": [b(), b(), rng.choice([None, None, 1, 2, -1, -2])]}
     if k == "linlist":
         return {"k": "linlist", "is": [rng.randint(-cells, cells - 1) for _ in range(rng.randint(1, 4))]}
-    grow = write and rng.random() < 0.3
+    grow = write and rng.random() < 0.3 and cells <= 120  # keep the states small over long histories
     w = n + (rng.randint(1, 2) if (grow and rng.random() < 0.4 and n < 4) or n == 0 else 0)
     if k == "subs":
         p = rng.randint(1, 4)
